@@ -45,7 +45,7 @@ def _plan(draw, max_len):
         vals = draw(gen.values(kind, n))
     plan = {"kind": kind, "vals": vals}
     if draw(st.integers(0, 7)) == 0:
-        plan["layout"] = draw(st.sampled_from(["strided", "reversed"]))
+        plan["layout"] = draw(st.sampled_from(["strided", "reversed", "bigendian"]))
     if n and kind not in ("u", "y", "i", "b") and draw(st.integers(0, 2)) == 0:
         # history: query, edit cells of the same vector in place, query again
         v = draw(gen.value(kind, "pool")) if kind != "oi" else draw(st.sampled_from([None, 0, 5, 9]))
@@ -86,6 +86,9 @@ def check(plan, ctx):
     elif plan.get("layout") == "reversed" and vals:
         v = build.vec(kind, vals[::-1])[::-1]
         ctx.cls("receiver_is_a_reversed_view")
+    elif plan.get("layout") == "bigendian" and vals and v.dtype.kind in "iufMm" and v.dtype.itemsize > 1:
+        v = v.astype(v.dtype.newbyteorder(">"))                # the same elements in non-native byte order
+        ctx.cls("receiver_in_non_native_byte_order")
     if build.cells(v) != build.cells(build.vec(kind, vals)) and not any(isinstance(x, float) and x != x for x in vals):
         raise RuntimeError("builder: view does not hold the planned elements")
     _check_vec(v, kind, vals, ctx)
